@@ -18,8 +18,13 @@ __CPROVER_requires(TABLE_OK(fpowm_table) && MPZ_OK(res) && MPZ_OK(m) && MPZ_OK(x
 __CPROVER_requires(V(p) != 0 && __tmcg_thrown == 0 && WORD_OK(V(x)))
 #ifdef ENFORCE_tmcg_mpz_fpowm
 __CPROVER_requires(g_absx == (V(x) < 0 ? -V(x) : V(x)) && g_bits == BITS(g_absx))
+#ifdef GMP_ABS_TRACK_E
+__CPROVER_requires(g_tab == fpowm_table && ghost_b < T_MAX)
+/* the bit length of a non-negative word (fact of the integers, as in gmp_abs.h GMP_ABS_EXACT_BITS), for this value */
+__CPROVER_requires(g_absx > 0 ==> g_bits == 64UL - (unsigned long)__builtin_clzl((unsigned long)g_absx))
 #endif
-__CPROVER_assigns(V(res), __tmcg_thrown)
+#endif
+__CPROVER_assigns(*res, __tmcg_thrown)
 /* C05: a base that differs from the table's base, or an oversized exponent, is refused -- exactly then */
 __CPROVER_ensures(THROWN_IS(TMCG_EXC_invalid_argument) == (V(m) != V(fpowm_table[0]) || BITS(V(x)) > T_MAX))
 __CPROVER_ensures(THROWN_IS(TMCG_EXC_none) || THROWN_IS(TMCG_EXC_invalid_argument) || THROWN_IS(TMCG_EXC_runtime_error))
@@ -29,9 +34,18 @@ __CPROVER_ensures(!THROWN_IS(TMCG_EXC_none) && !THROWN_IS(TMCG_EXC_runtime_error
 /* C09 (bounded, group C09_fpowm_exact): with the precomputed table the result is the plain power */
 __CPROVER_ensures(THROWN_IS(TMCG_EXC_none) ==> V(res) == POWM(V(m), V(x), V(p)))
 #endif
+#if defined(ENFORCE_tmcg_mpz_fpowm) && defined(GMP_ABS_TRACK_E)
+/* C09, algebraic structure (unbounded): the result contains the table entry at EVERY index k (ghost_b arbitrary)
+ * exactly bit_k(|x|) times -- inverted for a negative exponent -- i.e. res = prod_k table[k]^(+-bit_k(|x|)) in
+ * every commutative group; all blinding factors cancel */
+__CPROVER_ensures(THROWN_IS(TMCG_EXC_none) ==> E_FIELD(res) == (V(x) < 0 ? 0UL - BITK((V(x) < 0 ? -V(x) : V(x)), ghost_b) : BITK((V(x) < 0 ? -V(x) : V(x)), ghost_b)))
+#endif
 //@ loop 1
-__CPROVER_assigns(i, V(res))
-__CPROVER_loop_invariant(i <= g_bits && g_bits <= T_MAX && V(xx) == g_absx)
+__CPROVER_assigns(i, *res)
+__CPROVER_loop_invariant(i <= g_bits && g_bits <= T_MAX)
+#ifdef GMP_ABS_TRACK_E
+__CPROVER_loop_invariant(E_FIELD(res) == (ghost_b < i ? BITK(g_absx, ghost_b) : 0UL) && g_absx >= 0)
+#endif
 __CPROVER_decreases(g_bits - i)
 //@ end
 
@@ -41,17 +55,31 @@ __CPROVER_requires(TABLE_OK(fpowm_table) && MPZ_OK(res) && MPZ_OK(m) && MPZ_OK(p
 __CPROVER_requires(V(p) != 0 && __tmcg_thrown == 0 && x_ui <= (unsigned long)0x7fffffffffffffffL)
 #ifdef ENFORCE_tmcg_mpz_fpowm_ui
 __CPROVER_requires(g_absx == (long)x_ui && g_bits == BITS(g_absx))
+#ifdef GMP_ABS_TRACK_E
+__CPROVER_requires(g_tab == fpowm_table && ghost_b < T_MAX)
+/* the bit length of a non-negative word (fact of the integers, as in gmp_abs.h GMP_ABS_EXACT_BITS), for this value */
+__CPROVER_requires(g_absx > 0 ==> g_bits == 64UL - (unsigned long)__builtin_clzl((unsigned long)g_absx))
 #endif
-__CPROVER_assigns(V(res), __tmcg_thrown)
+#endif
+__CPROVER_assigns(*res, __tmcg_thrown)
 __CPROVER_ensures(THROWN_IS(TMCG_EXC_invalid_argument) == (V(m) != V(fpowm_table[0]) || BITS((long)x_ui) > T_MAX))
 __CPROVER_ensures(THROWN_IS(TMCG_EXC_none) || THROWN_IS(TMCG_EXC_invalid_argument))
 __CPROVER_ensures(!THROWN_IS(TMCG_EXC_none) ==> V(res) == __CPROVER_old(V(res)))
 #ifdef ASSUME_FPOWM_VALUE
 __CPROVER_ensures(THROWN_IS(TMCG_EXC_none) ==> V(res) == POWM(V(m), (long)x_ui, V(p)))
 #endif
+#if defined(ENFORCE_tmcg_mpz_fpowm_ui) && defined(GMP_ABS_TRACK_E)
+/* C09, algebraic structure (unbounded): the result contains the table entry at EVERY index k (ghost_b arbitrary)
+ * exactly bit_k(|x|) times -- inverted for a negative exponent -- i.e. res = prod_k table[k]^(+-bit_k(|x|)) in
+ * every commutative group; all blinding factors cancel */
+__CPROVER_ensures(THROWN_IS(TMCG_EXC_none) ==> E_FIELD(res) == BITK((long)x_ui, ghost_b))
+#endif
 //@ loop 1
-__CPROVER_assigns(i, V(res))
-__CPROVER_loop_invariant(i <= g_bits && g_bits <= T_MAX && V(x) == g_absx)
+__CPROVER_assigns(i, *res)
+__CPROVER_loop_invariant(i <= g_bits && g_bits <= T_MAX)
+#ifdef GMP_ABS_TRACK_E
+__CPROVER_loop_invariant(E_FIELD(res) == (ghost_b < i ? BITK(g_absx, ghost_b) : 0UL) && g_absx >= 0)
+#endif
 __CPROVER_decreases(g_bits - i)
 //@ end
 
@@ -61,16 +89,30 @@ __CPROVER_requires(TABLE_OK(fpowm_table) && MPZ_OK(res) && MPZ_OK(m) && MPZ_OK(x
 __CPROVER_requires(V(p) != 0 && __tmcg_thrown == 0 && WORD_OK(V(x)))
 #ifdef ENFORCE_tmcg_mpz_fspowm
 __CPROVER_requires(g_absx == (V(x) < 0 ? -V(x) : V(x)) && g_bits == BITS(g_absx))
+#ifdef GMP_ABS_TRACK_E
+__CPROVER_requires(g_tab == fpowm_table && ghost_b < T_MAX)
+/* the bit length of a non-negative word (fact of the integers, as in gmp_abs.h GMP_ABS_EXACT_BITS), for this value */
+__CPROVER_requires(g_absx > 0 ==> g_bits == 64UL - (unsigned long)__builtin_clzl((unsigned long)g_absx))
 #endif
-__CPROVER_assigns(V(res), __tmcg_thrown)
+#endif
+__CPROVER_assigns(*res, __tmcg_thrown)
 __CPROVER_ensures(THROWN_IS(TMCG_EXC_invalid_argument) == (V(m) != V(fpowm_table[0]) || BITS(V(x)) > T_MAX))
 __CPROVER_ensures(THROWN_IS(TMCG_EXC_none) || THROWN_IS(TMCG_EXC_invalid_argument) || THROWN_IS(TMCG_EXC_runtime_error))
 __CPROVER_ensures(THROWN_IS(TMCG_EXC_invalid_argument) ==> V(res) == __CPROVER_old(V(res)))
 #ifdef ASSUME_FPOWM_VALUE
 __CPROVER_ensures(THROWN_IS(TMCG_EXC_none) ==> V(res) == POWM(V(m), V(x), V(p)))
 #endif
+#if defined(ENFORCE_tmcg_mpz_fspowm) && defined(GMP_ABS_TRACK_E)
+/* C09, algebraic structure (unbounded): the result contains the table entry at EVERY index k (ghost_b arbitrary)
+ * exactly bit_k(|x|) times -- inverted for a negative exponent -- i.e. res = prod_k table[k]^(+-bit_k(|x|)) in
+ * every commutative group; all blinding factors cancel */
+__CPROVER_ensures(THROWN_IS(TMCG_EXC_none) ==> E_FIELD(res) == (V(x) < 0 ? 0UL - BITK((V(x) < 0 ? -V(x) : V(x)), ghost_b) : BITK((V(x) < 0 ? -V(x) : V(x)), ghost_b)))
+#endif
 //@ loop 1
-__CPROVER_assigns(i, V(res), V(foo), V(bar))
-__CPROVER_loop_invariant(i <= g_bits && g_bits <= T_MAX && V(xx) == g_absx)
+__CPROVER_assigns(i, *res, *foo, *bar)
+__CPROVER_loop_invariant(i <= g_bits && g_bits <= T_MAX)
+#ifdef GMP_ABS_TRACK_E
+__CPROVER_loop_invariant(E_FIELD(res) == (ghost_b < i ? BITK(g_absx, ghost_b) : 0UL) && g_absx >= 0)
+#endif
 __CPROVER_decreases(g_bits - i)
 //@ end
